@@ -6,15 +6,6 @@ resident work-groups: regions are laid out first-fit one after the other (`Stair
 round-robin from `nextSIMD`, every SIMD is tried once per wavefront. -/
 namespace C09
 
-/-- a request of `a` units fits a mask of the given shape (`none` = unlimited) -/
-def fitsUnits (sh : Option Nat) (a : Nat) : Prop :=
-  match sh with
-  | none => True
-  | some n => a ≤ n
-
-instance (sh : Option Nat) (a : Nat) : Decidable (fitsUnits sh a) := by
-  unfold fitsUnits; cases sh <;> infer_instance
-
 /-- staircase form of a mask (nothing to say about an unlimited one) -/
 def MStair (M : Mask) (a : Nat) : Prop :=
   match M with
@@ -114,17 +105,6 @@ theorem sgprLoop_stair (req : Nat) : ∀ (n : Nat) (M : Mask) (a : Nat), MStair 
         rfl
 
 /-! ## the SIMD matching -/
-
-/-- wavefronts an empty SIMD can take: its free slots, and as many VGPR regions as fit its file -/
-def slotsOn (cap : Nat) (sh : Option Nat) (req : Nat) : Nat :=
-  match sh with
-  | none => cap
-  | some n => if req = 0 then cap else min cap (n / req)
-
-/-- `f 0 + … + f (n-1)` -/
-def slotSum (f : Nat → Nat) : Nat → Nat
-  | 0 => 0
-  | n+1 => slotSum f n + f n
 
 theorem slotSum_pos (f : Nat → Nat) : ∀ n, 0 < slotSum f n → ∃ k, k < n ∧ 0 < f k := by
   intro n
